@@ -51,6 +51,18 @@ def axis_angle_grid():
     return [(a, t) for a in axes for t in angles]
 
 
+def quaternion_grid():
+    """the axis-angle grid plus half-turns and near-half-turns (scalar part zero / tiny): every unit
+    quaternion is in the quaternion clause, only the 3-D axis-angle clause excludes half-turns"""
+    g = axis_angle_grid()
+    axes = []
+    for a, _ in g:
+        if not any(np.array_equal(a, b) for b in axes):
+            axes.append(a)
+    extra = [np.pi, np.pi - 1e-6, -(np.pi - 1e-4), np.deg2rad(179.0)]
+    return g + [(a, t) for a in axes for t in extra]
+
+
 class C20(Check):
     id = "C20"
     title = "convenience transform constructors follow their documented conventions"
@@ -66,6 +78,8 @@ class C20(Check):
         n = len(axis_angle_grid())
         for k in range(0, n, 40):
             out.append(("axisangle", k, min(n, k + 40)))
+        n = len(quaternion_grid())
+        for k in range(0, n, 40):
             out.append(("quat", k, min(n, k + 40)))
         for obj in ("PointCloud2", "PointCloud3", "TriMesh2", "Image2", "MaskedImage2", "PointGraph2"):
             out.append(("centre", obj))
@@ -258,27 +272,30 @@ class C20(Check):
     def _op_quat(self, st, op, verify):
         from menpo.transform import Rotation
 
-        a, t = axis_angle_grid()[op[1]]
+        a, t = quaternion_grid()[op[1]]
         q = np.concatenate([[np.cos(t / 2)], np.sin(t / 2) * a])
-        if q[0] < 0:
+        half_turn = abs(q[0]) < 1e-12
+        if q[0] < 0 and not half_turn:
             q = -q
         M = rodrigues(a, t)
         fails = []
         R = Rotation.init_3d_from_quaternion(q.copy())
-        self.note("quat:grid")
+        self.note("quat:%s" % ("half-turn" if half_turn else "near-half-turn" if abs(q[0]) < 1e-3 else "grid"))
         if not verify:
             return fails
         if np.abs(R.rotation_matrix - M).max() > 1e-12:
             fails.append(Failure("quaternion", "to-matrix", "q=%s gives a matrix differing by %.3g from Rodrigues" % (q, np.abs(R.rotation_matrix - M).max())))
         back = R.as_vector()
-        if back.shape != (4,) or np.abs(back - q).max() > 1e-9:
+        # a half-turn has scalar part zero: q and -q are both canonical
+        err = min(np.abs(back - q).max(), np.abs(back + q).max()) if half_turn else np.abs(back - q).max()
+        if back.shape != (4,) or err > 1e-9:
             fails.append(Failure("quaternion", "round-trip", "q=%s -> rotation -> %s" % (q, back)))
         R2 = Rotation(M.copy())
         q2 = R2.as_vector()
         R3 = R2.from_vector(q2)
         if np.abs(R3.rotation_matrix - M).max() > 1e-9:
-            fails.append(Failure("quaternion", "matrix-round-trip", "matrix -> quaternion -> matrix differs by %.3g" % np.abs(R3.rotation_matrix - M).max()))
-        if abs(np.linalg.norm(q2) - 1) > 1e-9 or q2[0] < -1e-12:
+            fails.append(Failure("quaternion", "matrix-round-trip", "matrix -> quaternion -> matrix differs by %.3g (axis %s angle %.9f)" % (np.abs(R3.rotation_matrix - M).max(), a, t)))
+        if abs(np.linalg.norm(q2) - 1) > 1e-9 or q2[0] < -1e-9:
             fails.append(Failure("quaternion", "canonical", "as_vector() is not a unit quaternion with non-negative scalar part: %s" % q2))
         # a scaled quaternion describes the same rotation
         R4 = Rotation.init_3d_from_quaternion(2.5 * q)
@@ -501,7 +518,7 @@ class C20(Check):
 
     # ------------------------------------------------------------------ reporting
     def vacuity(self, notes, stats):
-        need = ["turn:wraps", "turn:plain", "axis-angle:3d-negative", "axis-angle:3d-positive", "axis-angle:2d-negative", "axis-angle:2d-non-negative", "quat:grid", "about:rotate-deg", "about:rotate-rad", "about:shear-deg", "about:transform-other", "about:transform-homogeneous", "factory:zero-first", "factory:equal", "factory:one-different", "tcoords:corners", "tcoords:inverse"]
+        need = ["turn:wraps", "turn:plain", "axis-angle:3d-negative", "axis-angle:3d-positive", "axis-angle:2d-negative", "axis-angle:2d-non-negative", "quat:grid", "quat:half-turn", "quat:near-half-turn", "about:rotate-deg", "about:rotate-rad", "about:shear-deg", "about:transform-other", "about:transform-homogeneous", "factory:zero-first", "factory:equal", "factory:one-different", "tcoords:corners", "tcoords:inverse"]
         return ["outcome %s never produced" % n for n in need if not notes.get(n)]
 
     def rule(self):
@@ -513,7 +530,7 @@ class C20(Check):
         )
 
     def alphabet_sizes(self):
-        return {"angles": len(ANGLES_DEG), "axis_angle_grid": len(axis_angle_grid()), "centre_objects": 6, "tcoord_shapes": 6}
+        return {"angles": len(ANGLES_DEG), "axis_angle_grid": len(axis_angle_grid()), "quaternion_grid": len(quaternion_grid()), "centre_objects": 6, "tcoord_shapes": 6}
 
     def assumptions(self):
         return [
